@@ -1063,12 +1063,21 @@ pub(crate) fn verify_total_difficulty(
             let diff = &start_epoch_difficulty;
             let total = &total_difficulty;
             let unaligned = &unaligned_difficulty_calculated;
+            // The end epoch difficulty lies in the band between `tau ^ k` and `tau ^ (k+1)`
+            // times (or divided by) the start epoch difficulty. Each estimated limit has to
+            // cover the whole band, so the limit on the side the difficulty moves to has to
+            // be estimated with the far end of the band (`k + 1 <= n` since `k < n`).
+            let (k_min, k_max) = match epoch_difficulty_trend {
+                EpochDifficultyTrend::Unchanged => (k, k),
+                EpochDifficultyTrend::Increased { .. } => (k, k + 1),
+                EpochDifficultyTrend::Decreased { .. } => (k + 1, k),
+            };
             let limit = EstimatedLimit::Min;
             epoch_difficulty_trend
-                .check_total_difficulty_limit(limit, n, k, total, diff, tau, unaligned)?;
+                .check_total_difficulty_limit(limit, n, k_min, total, diff, tau, unaligned)?;
             let limit = EstimatedLimit::Max;
             epoch_difficulty_trend
-                .check_total_difficulty_limit(limit, n, k, total, diff, tau, unaligned)?;
+                .check_total_difficulty_limit(limit, n, k_max, total, diff, tau, unaligned)?;
         }
     }
 
